@@ -1396,7 +1396,7 @@ fn delay_fn(site: u32) {
         c.set(x.0);
         v
     });
-    // sites of the simulation-time updates (T1, T2, Q1): only for the sub-checks that
+    // sites of the simulation-time updates and reads (T1, T2, Q1, T3): only for the sub-checks that
     // race other threads against time steps (C08 race, C15 readers)
     if site >= 18 {
         if !TIME_SITES.load(Ordering::Relaxed) {
@@ -1409,6 +1409,8 @@ fn delay_fn(site: u32) {
                 (19, 0..=14) => spin_us(1 + (r >> 8) % 10), // between the two field stores
                 (20, 0..=7) => spin_us(1 + (r >> 8) % 5),   // after a time read through a scheduler
                 (20, 8..=11) => std::thread::yield_now(),
+                (21, 0..=9) => spin_us(1 + (r >> 8) % 8), // between the two field loads of a time read
+                (21, 10..=13) => std::thread::yield_now(),
                 _ => {}
             }
             return;
